@@ -486,7 +486,7 @@ fn run(cfg: &Cfg) -> Report {
         cfg,
         "proptest unannotated functions `fn f(p0..pn) = body [where …]` with 1-4 parameters: each parameter belongs to a symbolic dimension class (a monomial over two free symbols and the base dimensions, e.g. S0, S1, S0·S1, S0², S0/Time, S1^(1/2), Length), the body is generated for a requested result monomial from parameters, unit literals, + - * /, rational powers, sqrt/sqr/abs, conditionals with comparisons, calls to a previously defined inferred generic function, and where-clauses; 6-11 call sites per function, half instantiated consistently with the classes, half with random dimensions. Oracle: the signature numbat prints for the definition, used to annotate the same body under another name, is accepted; every call is accepted by the inferred version iff it is accepted by the annotated version; accepted calls have the same result type and value. non-trivial = the printed signature has type parameters with a product/quotient/power, and the call sites include an accepted and a rejected one; distinct = definition text",
     );
-    let cases = cfg.tier.pick(250u32, 10000u32);
+    let cases = cfg.tier.pick(1000u32, 10000u32);
     rep.absorb(run_proptest(
         cfg,
         "functions",
